@@ -64,8 +64,6 @@ Proof.
 Qed.
 
 (* ---------- a crash between savers ---------- *)
-Definition keys_nodup (d : disk) : Prop := NoDup (map fst (d_jrnl d)).
-
 Lemma lookup_filter_has_data p j : NoDup (map fst j) ->
   match lookup p (filter has_data j) with Some (_, evs) => evs | None => [] end =
   match lookup p j with Some (_, evs) => evs | None => [] end.
@@ -155,7 +153,7 @@ Proof.
       rewrite ?(proj1 (proj2 (tsave_other fx d _))); exact H.
   - cbn. exact H.
   - destruct (mem_nat n (m_pipes m)); [exact H|]. rewrite F. reflexivity.
-  - rewrite F. reflexivity.
+  - destruct (mem_nat n (m_pipes m)); [|exact H]. rewrite F. reflexivity.
 Qed.
 
 Lemma pipes_crash_fixed fs fa : pipes_crash_statement (mkFix fs fa true).
@@ -275,15 +273,9 @@ Proof.
     cbn [map fst]. rewrite <- (IH ND'). split; [intros [C|C]; [congruence|exact C]|intros C; right; exact C].
 Qed.
 
-Definition bufs_ok (m : mem) : Prop :=
-  NoDup (map fst (m_buf m)) /\ forall p, In p (map fst (m_buf m)) -> lookup p (m_cur m) <> None.
-
-Lemma clean_with_sync fa fp : forall m d, consistent m d -> keys_nodup d -> bufs_ok m ->
-  exists m' d', start (mkFix true fa fp) (graceful (mkFix true fa fp) m d) = Some (m', d') /\
-                m_parts m' = m_parts m /\ m_pipes m' = m_pipes m /\
-                (forall p, events_of p (d_jrnl d') = acked m d p).
+Lemma clean_with_sync fa fp : clean_statement (mkFix true fa fp).
 Proof.
-  intros m d (Ht & Hj & Hb) ND (NDb & Hc).
+  intros m d (Ht & Hj & Hb & NDb & Hc) ND.
   destruct (flush_fold_spec (m_cur m) (m_buf m) NDb Hc (d_jrnl d) ND) as [N1 E1].
   unfold graceful. cbn [fx_sync]. unfold flush_all. fold (flush_fold (m_cur m) (m_buf m) (d_jrnl d)).
   set (j1 := flush_fold (m_cur m) (m_buf m) (d_jrnl d)) in *. cbn [m_hull m_pipes d_tdat d_tbak d_jrnl d_next].
@@ -296,4 +288,162 @@ Proof.
   destruct (start_whole (mkFix true fa fp) d1 (m_parts m) (m_pipes m) Ht J1 eq_refl N1) as (m' & d' & S & P1 & P2 & _ & E & _).
   exists m', d'. split; [exact S|]. split; [exact P1|]. split; [exact P2|].
   intros p. rewrite E. cbn [d1 d_jrnl]. rewrite E1. reflexivity.
+Qed.
+
+(* ---------- a crash inside the pipes save ---------- *)
+Definition pipes_save_crash_statement (fx : fixes) : Prop :=
+  forall d l_old l_new d', pipes_init d = Some l_old -> pcrash_at fx d l_new d' ->
+  pipes_init d' = Some l_old \/ pipes_init d' = Some l_new.
+
+Lemma pipes_save_crash_atomic fs fa : pipes_save_crash_statement (mkFix fs fa true).
+Proof.
+  intros d lo ln d' H C. inversion C as [| |k F]; subst.
+  - left. exact H.
+  - right. reflexivity.
+  - discriminate F.
+Qed.
+
+(* ---------- the crash-shaped states of the savers, as the correspondence check applies them ---------- *)
+Definition saver_crash (g : surgery) : Prop :=
+  match g with GTRenamed | GTTorn _ | GPTorn _ | GPDrop => True | _ => False end.
+
+Lemma saver_crash_harmless fs prev d g : saver_crash g -> apply_surgery (mkFix fs true true) prev d g = d.
+Proof. destruct g; cbn; intros H; try destruct H; reflexivity. Qed.
+
+(* ---------- [consistent] and [keys_nodup] hold of every state a server can be in ---------- *)
+Lemma tindex_init_Some d m : tindex_init d = Some m -> forall p, In p (with_data d) -> In p m.
+Proof.
+  unfold tindex_init. intros H p Hp.
+  destruct (d_tdat d) as [c|].
+  - destruct (decode c) as [m0|]; [|discriminate H].
+    destruct (forallb (fun j => mem_nat j m0) (with_data d)) eqn:F; [|discriminate H].
+    injection H as <-. rewrite forallb_forall in F. apply mem_nat_In. apply F. exact Hp.
+  - destruct (forallb (fun j => mem_nat j []) (with_data d)) eqn:F; [|discriminate H].
+    rewrite forallb_forall in F. specialize (F p Hp). discriminate F.
+Qed.
+
+Lemma NoDup_keys_filter {A} (f : nat * A -> bool) l : NoDup (map fst l) -> NoDup (map fst (filter f l)).
+Proof.
+  induction l as [|x l IH]; intros ND; [constructor|]. cbn [map] in ND. inversion ND as [|? ? Hx ND']. subst.
+  cbn [filter]. destruct (f x); [|exact (IH ND')]. cbn [map]. constructor; [|exact (IH ND')].
+  intros C. apply Hx. apply in_map_iff in C as [y [E Hy]]. apply filter_In in Hy as [Hy _].
+  apply in_map_iff. exists y. split; assumption.
+Qed.
+
+Lemma start_consistent fx d m' d' : keys_nodup d -> start fx d = Some (m', d') -> consistent m' d' /\ keys_nodup d'.
+Proof.
+  intros ND S. unfold start in S.
+  destruct (tindex_init d) as [parts|] eqn:T; [|discriminate S].
+  destruct (pipes_init d) as [pipes|]; [|discriminate S].
+  injection S as <- <-. pose proof (tindex_init_Some d parts T) as J.
+  split; [split; [|split; [|split; [|split]]]|].
+  - apply tsave_tdat.
+  - cbn [m_parts]. intros p Hp. apply J. unfold with_data in *. rewrite tsave_jrnl in Hp. cbn [d_jrnl] in Hp.
+    apply in_map_iff in Hp as [y [E Hy]]. apply filter_In in Hy as [Hy Hd]. apply filter_In in Hy as [Hy _].
+    apply in_map_iff. exists y. split; [exact E|]. apply filter_In. split; assumption.
+  - cbn [m_buf lookup]. intros p Hp. congruence.
+  - cbn [m_buf map]. constructor.
+  - cbn [m_buf map]. intros p [].
+  - unfold keys_nodup. rewrite tsave_jrnl. cbn [d_jrnl]. apply NoDup_keys_filter. exact ND.
+Qed.
+
+Lemma In_update_keys {A} p (v : A) l q : In q (map fst (update p v l)) -> q = p \/ In q (map fst l).
+Proof.
+  induction l as [|[r w] l IH]; cbn [update map fst]; [intros [E|[]]; left; congruence|].
+  destruct (Nat.eqb r p) eqn:E; cbn [map fst].
+  - intros H. right. exact H.
+  - intros [H|H]; [right; left; exact H|]. destruct (IH H) as [C|C]; [left; exact C|right; right; exact C].
+Qed.
+
+Lemma lookup_Some_keys {A} p (l : list (nat * A)) : lookup p l <> None <-> In p (map fst l).
+Proof.
+  split.
+  - intros H. destruct (in_dec Nat.eq_dec p (map fst l)) as [I|N]; [exact I|]. exfalso. apply H. apply lookup_None_keys. exact N.
+  - intros I H. apply lookup_None_keys in H. exact (H I).
+Qed.
+
+Lemma flush_all_consistent m d : consistent m d -> keys_nodup d ->
+  consistent (fst (flush_all m d)) (snd (flush_all m d)) /\ keys_nodup (snd (flush_all m d)).
+Proof.
+  intros (Ht & Hj & Hb & NDb & Hc) ND.
+  destruct (flush_fold_spec (m_cur m) (m_buf m) NDb Hc (d_jrnl d) ND) as [N1 E1].
+  unfold flush_all. fold (flush_fold (m_cur m) (m_buf m) (d_jrnl d)). cbn [fst snd].
+  set (j1 := flush_fold (m_cur m) (m_buf m) (d_jrnl d)) in *.
+  set (d1 := mkDisk (d_tdat d) (d_tbak d) (d_cdat d) (d_pdat d) j1 (d_next d)).
+  split; [|exact N1]. split; [exact Ht|]. split; [|split; [|split]].
+  - cbn [m_parts]. intros p Hp. apply (with_data_events d1 p N1) in Hp. cbn [d1 d_jrnl] in Hp. rewrite E1 in Hp.
+    destruct (events_of p (d_jrnl d)) eqn:Ev.
+    + cbn in Hp. apply Hb. unfold get_list in Hp. destruct (lookup p (m_buf m)); congruence.
+    + apply Hj. apply (with_data_events d p ND). congruence.
+  - cbn [m_buf lookup]. intros p Hp. congruence.
+  - cbn [m_buf map]. constructor.
+  - cbn [m_buf map]. intros p [].
+Qed.
+
+Lemma do_step_consistent fx m d s : consistent m d -> keys_nodup d ->
+  consistent (fst (do_step fx (m, d) s)) (snd (do_step fx (m, d) s)) /\ keys_nodup (snd (do_step fx (m, d) s)).
+Proof.
+  intros C ND. destruct s as [p ts| |n|n].
+  - destruct C as (Ht & Hj & Hb & NDb & Hc). cbn [do_step].
+    set (newp := negb (mem_nat p (m_parts m))).
+    set (parts := if newp then m_parts m ++ [p] else m_parts m).
+    set (d' := if newp then tsave fx d parts else d).
+    assert (Pin : In p parts).
+    { unfold parts, newp. destruct (mem_nat p (m_parts m)) eqn:E; cbn [negb].
+      - apply mem_nat_In. exact E.
+      - apply in_or_app. right. left. reflexivity. }
+    assert (Pinc : forall q, In q (m_parts m) -> In q parts).
+    { intros q Hq. unfold parts. destruct newp; [apply in_or_app; left; exact Hq|exact Hq]. }
+    assert (Td : d_tdat d' = Some (Whole parts)).
+    { unfold d', parts. destruct newp; [apply tsave_tdat|exact Ht]. }
+    assert (Jd : d_jrnl d' = d_jrnl d).
+    { unfold d'. destruct newp; [apply tsave_jrnl|reflexivity]. }
+    assert (G : forall d'' : disk, d_tdat d'' = d_tdat d' -> d_jrnl d'' = d_jrnl d' ->
+                consistent (mkMem parts (update p (get_list p (m_buf m) ++ ts) (m_buf m))
+                                  (match widen (lookup (match lookup p (m_cur m) with Some c => c | None => d_next d' end) (m_hull m)) ts with
+                                   | Some h => update (match lookup p (m_cur m) with Some c => c | None => d_next d' end) h (m_hull m)
+                                   | None => m_hull m end)
+                                  (m_pipes m)
+                                  (update p (match lookup p (m_cur m) with Some c => c | None => d_next d' end) (m_cur m))) d''
+                /\ keys_nodup d'').
+    { intros d'' E1 E2. split; [split; [|split; [|split; [|split]]]|].
+      - cbn [m_parts]. rewrite E1. exact Td.
+      - cbn [m_parts]. intros q Hq. apply Pinc. apply Hj. unfold with_data in *. rewrite E2, Jd in Hq. exact Hq.
+      - cbn [m_parts m_buf]. intros q Hq. apply lookup_Some_keys in Hq. apply In_update_keys in Hq as [->|Hq]; [exact Pin|].
+        apply Pinc. apply Hb. apply lookup_Some_keys. exact Hq.
+      - cbn [m_buf]. apply update_keys_nodup. exact NDb.
+      - cbn [m_buf m_cur]. intros q Hq. apply In_update_keys in Hq as [->|Hq].
+        + rewrite lookup_update_same. discriminate.
+        + destruct (Nat.eq_dec q p) as [->|N]; [rewrite lookup_update_same; discriminate|].
+          rewrite lookup_update_other by exact N. apply Hc. exact Hq.
+      - unfold keys_nodup. rewrite E2, Jd. exact ND. }
+    fold newp. fold parts. fold d'.
+    destruct (lookup p (m_cur m)) as [c|] eqn:L.
+    + cbn [fst snd]. apply G; reflexivity.
+    + cbn [fst snd]. apply G; reflexivity.
+  - cbn [do_step]. apply flush_all_consistent; assumption.
+  - cbn [do_step]. destruct (mem_nat n (m_pipes m)); [split; assumption|]. cbn [fst snd].
+    destruct C as (Ht & Hj & Hb & NDb & Hc).
+    destruct (fx_pipes fx); (split; [split; [exact Ht|split; [exact Hj|split; [exact Hb|split; [exact NDb|exact Hc]]]]|exact ND]).
+  - cbn [do_step]. destruct (mem_nat n (m_pipes m)); [|split; assumption]. cbn [fst snd].
+    destruct C as (Ht & Hj & Hb & NDb & Hc).
+    destruct (fx_pipes fx); (split; [split; [exact Ht|split; [exact Hj|split; [exact Hb|split; [exact NDb|exact Hc]]]]|exact ND]).
+Qed.
+
+Lemma run_steps_consistent fx l : forall m d, consistent m d -> keys_nodup d ->
+  consistent (fst (run_steps fx (m, d) l)) (snd (run_steps fx (m, d) l)) /\ keys_nodup (snd (run_steps fx (m, d) l)).
+Proof.
+  induction l as [|s l IH]; intros m d C ND; [split; assumption|].
+  cbn [run_steps fold_left]. destruct (do_step_consistent fx m d s C ND) as [C1 N1].
+  destruct (do_step fx (m, d) s) as [m1 d1]. apply IH; assumption.
+Qed.
+
+(* every state of a server that was started on a directory and executed a history *)
+Inductive reachable (fx : fixes) : mem -> disk -> Prop :=
+| reach : forall d0 m0 d0' l, keys_nodup d0 -> start fx d0 = Some (m0, d0') ->
+    reachable fx (fst (run_steps fx (m0, d0') l)) (snd (run_steps fx (m0, d0') l)).
+
+Lemma reachable_consistent fx m d : reachable fx m d -> consistent m d /\ keys_nodup d.
+Proof.
+  intros [d0 m0 d0' l ND S]. destruct (start_consistent fx d0 m0 d0' ND S) as [C N]. apply run_steps_consistent; assumption.
 Qed.
